@@ -177,7 +177,7 @@ bool exec_basic(ExecCtx &c) {
       });
       out.obs = hmix(out.obs, got);
       if (i >= n) {
-        if (!(out.status == ST_BSPLINE) && !(fault_fired() && is_injected_status(out.status)))
+        if (out.status == ST_OK)
           add_violation(c, "C09", "checked-accessor-no-throw",
                         "Grid::at(" + std::to_string(i) + ") on " + std::to_string(n) +
                             " points did not throw (status " + status_name(out.status) + ")",
@@ -185,7 +185,7 @@ bool exec_basic(ExecCtx &c) {
       } else if (out.status == ST_OK && got != pts[i]) {
         add_violation(c, "C09", "checked-accessor-wrong-element",
                       "Grid::at(" + std::to_string(i) + ") returned a different element", "Grid::at");
-      } else if (out.status == ST_BSPLINE) {
+      } else if (out.status == ST_BSPLINE || out.status == ST_OTHER_EXC) {
         add_violation(c, "C09", "checked-accessor-spurious-throw",
                       "Grid::at(" + std::to_string(i) + ") threw for a valid index", "Grid::at");
       }
@@ -332,8 +332,9 @@ bool exec_basic(ExecCtx &c) {
         // the moved-from source is judged before it may be overwritten
         if (out.status == ST_OK) {
           sim::Exempt e;
-          bool ok = !src->containsIntervals() && src->getStartIndex() == 0 &&
-                    src->getEndIndex() == 0;
+          // "a valid interval-free object on the same grid": the window may be
+          // empty or point-like, the invariants are judged by the generic oracle
+          bool ok = !src->containsIntervals();
           if (!ok)
             add_violation(c, "C10", "moved-from-not-interval-free",
                           "moved-from support keeps window [" + std::to_string(src->getStartIndex()) +
@@ -358,8 +359,9 @@ bool exec_basic(ExecCtx &c) {
         libcall(out, [&] { *dst = std::move(*src); });
         if (out.status == ST_OK && !self) {
           sim::Exempt e;
-          bool ok = !src->containsIntervals() && src->getStartIndex() == 0 &&
-                    src->getEndIndex() == 0;
+          // "a valid interval-free object on the same grid": the window may be
+          // empty or point-like, the invariants are judged by the generic oracle
+          bool ok = !src->containsIntervals();
           if (!ok)
             add_violation(c, "C10", "moved-from-not-interval-free",
                           "moved-from support keeps window [" + std::to_string(src->getStartIndex()) +
@@ -450,7 +452,7 @@ bool exec_basic(ExecCtx &c) {
       bool injected = fault_fired() && is_injected_status(out.status);
       if (which == 0 || which == 1) {
         if (i >= n) {
-          if (out.status != ST_BSPLINE && !injected)
+          if (out.status == ST_OK)
             add_violation(c, "C09", "checked-accessor-no-throw",
                           std::string(site) + "(" + std::to_string(i) + ") on a window of " +
                               std::to_string(n) + " points starting at " + std::to_string(st) +
@@ -465,7 +467,7 @@ bool exec_basic(ExecCtx &c) {
           add_violation(c, "C09", "checked-accessor-wrong-element", std::string(site), site);
         }
       } else if (which == 2) {
-        if (n == 0 && out.status != ST_BSPLINE && !injected)
+        if (n == 0 && out.status == ST_OK)
           add_violation(c, "C09", "checked-accessor-no-throw",
                         "front()/back() of an empty support did not throw", site);
         if (n > 0 && out.status == ST_BSPLINE)
